@@ -259,7 +259,14 @@ def load_known(prop: str) -> list[dict]:
     if not p.exists():
         return []
     data = json.loads(p.read_text())
-    return [e for e in data.get("findings", []) if e.get("property") == prop]
+    entries = list(data.get("findings", []))
+    have = {(e.get("property"), e.get("id")) for e in entries}
+    for f in sorted((VERIF / "findings").glob("*.json")):   # per-builder entries awaiting integration (committed, never written at run time)
+        obj = json.loads(f.read_text())
+        for e in (obj.get("findings", []) if "findings" in obj else [obj]):
+            if (e.get("property"), e.get("id")) not in have:
+                entries.append(e)
+    return [e for e in entries if e.get("property") == prop]
 
 
 def write_replay(prop: str, obj: dict) -> str:
